@@ -175,7 +175,23 @@ pub(crate) fn rpc_txs(c: &Client, script: &Script, is_lock: bool) -> Result<Vec<
         .collect())
 }
 
+/// The answer of the real `get_scripts` RPC (not the stored records: what the user is told is
+/// what the properties are about).
 pub(crate) fn rpc_scripts(c: &Client) -> Vec<(Script, bool, u64)> {
+    match c.rpc_filter().get_scripts() {
+        Ok(list) => list
+            .into_iter()
+            .map(|s| {
+                let script: Script = s.script.into();
+                (script, matches!(s.script_type, RpcScriptType::Lock), s.block_number.value())
+            })
+            .collect(),
+        Err(_) => stored_scripts(c),
+    }
+}
+
+/// The stored script records (for diagnostics).
+pub(crate) fn stored_scripts(c: &Client) -> Vec<(Script, bool, u64)> {
     c.storage
         .get_filter_scripts()
         .into_iter()
